@@ -238,7 +238,9 @@ def translate_step():
     try:
         return json.loads(o.strip().split("\n")[-1])
     except ValueError:
-        return dict(error=(o + e)[-400:], translated={}, skipped={})
+        # the translator itself failed: no piece is translated (the model's own tables stand in, nothing is claimed by this tie in this run)
+        sh([sys.executable, os.path.join(VERIF, "tools", "translate.py"), "/nonexistent-repo", os.path.join(COQ, "gen", "Generated.v")], timeout=120)
+        return dict(error=(o + e)[-400:], translated={}, skipped={"*": "translator failed: " + (o + e)[-200:]})
 
 
 def gen_theorems_of(prop):
